@@ -36,6 +36,7 @@ func remap(l *ref.LOp, m map[ref.OpKey]ref.OpKey) {
 func (r *run) tx(p *replica, e Ev) {
 	r.refresh(p)
 	before := r.observe(p)
+	hBefore := r.handleObs(p)
 	seenLen := len(p.seen)
 	st := &txState{}
 	wantErr := e.Fail != 0
@@ -91,6 +92,10 @@ func (r *run) tx(p *replica, e Ev) {
 			r.fail("tx", "C09.rollback-exact", r.cfg.Kind+"/state-"+d, "r%d: failed transaction (%d calls) changed %s:\n  before: %s\n  after : %s", p.idx, st.calls, d, before.brief(), after.brief())
 			r.fail("plain", "C03.error-has-no-effect", "tx/"+d, "r%d: failed transaction changed %s", p.idx, d)
 			r.fail("ref", r.prop+".rollback-exact", r.cfg.Kind+"/"+d, "r%d: failed transaction changed %s", p.idx, d)
+		}
+		if hAfter := r.handleObs(p); hAfter != hBefore {
+			r.fail("tx", "C09.rollback-exact", "child-document-view", "r%d: after a failed transaction, child documents obtained before it read differently:\n  before: %s\n  after : %s", p.idx, hBefore, hAfter)
+			r.fail("plain", "C03.error-has-no-effect", "tx/child-document-view", "r%d: after a failed transaction, child documents obtained before it read differently:\n  before: %s\n  after : %s", p.idx, hBefore, hAfter)
 		}
 		r.collectOwn(p, []*ref.LOp{}, false) // nothing may have been queued
 		if p.tw != nil {
@@ -235,4 +240,22 @@ func (r *run) torn(p *replica, e Ev) {
 		r.fail("tx", "C09.remote-none", "no-error", "r%d: truncated unit (%d of %d operations) was accepted without error", p.idx, cut, n)
 	}
 	_ = kernel.Canon
+}
+
+// handleObs reads every child document the harness kept from earlier calls.
+func (r *run) handleObs(p *replica) string {
+	if len(p.handles) == 0 {
+		return ""
+	}
+	var out []interface{}
+	msg, fp := safely(func() {
+		for _, h := range p.handles {
+			out = append(out, []interface{}{h.cont.String(), h.doc.IsGarbage(), h.doc.GetValue()})
+		}
+	})
+	if msg != "" {
+		r.fail("nopanic", r.prop+".no-panic", fp, "r%d: reading a child document panicked: %s", p.idx, msg)
+		panic(abortRun{})
+	}
+	return kernel.Canon(out)
 }
